@@ -222,6 +222,13 @@ func c06oracle(c *rcluster, cs c06case, sc sessCfg, res sessResult) (string, str
 					dsts = append(dsts, e.Dsts)
 				}
 			}
+			if _, represented := rep[s.To]; !represented {
+				// nobody represents the addressed party in this session: the message goes nowhere
+				if len(dsts) != 0 {
+					return "p2p-destination/party-without-a-node-in-the-session", fmt.Sprintf("node %d's protocol instance addressed a point-to-point message to party %d, which no participant of the session represents; it was transmitted to %v", u, s.To, dsts)
+				}
+				continue
+			}
 			want := rep[s.To]
 			if len(dsts) != 1 || len(dsts[0]) != 1 || dsts[0][0] != want {
 				return "p2p-destination", fmt.Sprintf("node %d's point-to-point message for party %d was transmitted to %v; it must go to exactly node %d", u, s.To, dsts, want)
@@ -238,7 +245,7 @@ func c06oracle(c *rcluster, cs c06case, sc sessCfg, res sessResult) (string, str
 }
 
 func unitC06(e common.Env, p *common.Part) {
-	p.Rule = "scripted key-generation + signing sessions over PRNG membership maps (shifted, random injective, 1..3 replicas per party with a PRNG choice of the participating replica, duplicate party; in every third case the party assignment of the same nodes is replaced between sessions on the same scheme objects), loud (real disc.Member), barrier and silent mode, session sizes 2..5, random delivery policies; distinct key = (map, participants, mode, phase); non-trivial when the map is not the identity on the participants"
+	p.Rule = "scripted key-generation + signing sessions over PRNG membership maps (shifted, random injective, 1..3 replicas per party with a PRNG choice of the participating replica, duplicate party; in every third case the party assignment of the same nodes is replaced between sessions on the same scheme objects), loud (real disc.Member), barrier and silent mode, session sizes 2..5, random delivery policies; in every second case the membership has a further member that takes part in nothing and the protocol instances also address point-to-point messages to every party no participant represents and to a party the membership does not know (nothing may be transmitted for those); distinct key = (map, participants, mode, phase); non-trivial when the map is not the identity on the participants"
 	p.Assumptions = append(p.Assumptions, "exactly the expected number of members invoke each call; quick tier: ids <= 250 (large ids are C13's subject), thorough: full 16-bit range incl. byte boundaries")
 	n := e.Pick(140, 12000)
 	for i := 0; i < n; i++ {
@@ -250,6 +257,22 @@ func unitC06(e common.Env, p *common.Part) {
 		key := fmt.Sprintf("%s|%s|%v|%s", cs.Name, mapString(cs.Map), cs.Callers, cs.Mode)
 		p.Begin(key)
 		polName, pol := policyByIndex(i, rng, cs.Callers)
+		strays := !cs.Dup && i%2 == 0
+		if strays {
+			// a configured member that takes part in nothing, whose party has no node in any session of this case
+			usedN, usedP := map[uint16]bool{}, map[uint16]bool{}
+			for u, pid := range cs.Map {
+				usedN[u], usedP[pid] = true, true
+			}
+			nx, px := uint16(1), uint16(1)
+			for usedN[nx] {
+				nx++
+			}
+			for usedP[px] {
+				px++
+			}
+			cs.Map[nx] = px
+		}
 		c := newRCluster(cluster.Config{Map: cs.Map, Silent: cs.Mode == "silent", Barrier: cs.Mode == "barrier", Threshold: len(cs.Callers) - 1}, rng, pol)
 		script := backend.Script{Rounds: []uint8{1, 2}, Bcast: true, P2P: true, Filler: func(r uint8, d uint16) int { return int(r) * int(d%7) }}
 		nonIdentity := false
@@ -303,6 +326,34 @@ func unitC06(e common.Env, p *common.Part) {
 				c.SetMap(nm)
 				nonIdentity = true
 				p.Count("remapped_clusters", 1)
+			}
+			script.StrayTo = nil
+			if strays {
+				// the protocol instances also address, point-to-point, every party of the membership that no participant represents
+				// and one party the membership does not know: nothing may be transmitted for those
+				repd, known := map[uint16]bool{}, map[uint16]bool{}
+				for _, u := range cs.Callers {
+					repd[cs.Map[u]] = true
+				}
+				for _, pid := range cs.Map {
+					known[pid] = true
+					if !repd[pid] {
+						dup := false
+						for _, x := range script.StrayTo {
+							dup = dup || x == pid
+						}
+						if !dup {
+							script.StrayTo = append(script.StrayTo, pid)
+						}
+					}
+				}
+				sort.Slice(script.StrayTo, func(a, b int) bool { return script.StrayTo[a] < script.StrayTo[b] })
+				un := uint16(251)
+				for known[un] {
+					un++
+				}
+				script.StrayTo = append(script.StrayTo, un)
+				p.Count("sessions_with_messages_for_unrepresented_parties", 1)
 			}
 			sc := sessCfg{Callers: cs.Callers, Sign: sign, Topic: fmt.Sprintf("c06-topic-%d%s", i, ph.suffix), Digest: []byte("digest-of-a-message-to-be-signed!"), Script: script, Timeout: timeout}
 			if sign {
